@@ -1,7 +1,7 @@
 """C05: render method shapes of Shapes.tla (Forward) as #[unimock] traits with recording matchers / answers."""
 import json, random
 
-PTY = {"u8": "u8", "string": "String", "ru8": "&u8", "rru8": "&&u8", "str": "&str", "mu8": "&mut u8", "mvec": "&mut Vec<u8>",
+PTY = {"u8": "u8", "string": "String", "ru8": "&u8", "rru8": "&&u8", "str": "&str", "mu8": "&mut u8", "mvec": "&mut Vec<u8>", "mlvec": "&'a mut Vec<u8>",
        "slice": "&[u8]", "vec": "Vec<u8>", "gen": "T", "optstr": "Option<&str>", "pair": "(u8, u8)"}
 RTY = {"u32": "u32", "string": "String", "opt": "Option<u32>", "ref": "&u32"}
 RECV = {"ref": "&self", "mut": "&mut self", "own": "self", "rc": "self: std::rc::Rc<Self>", "arc": "self: std::sync::Arc<Self>", "pin": "self: std::pin::Pin<&mut Self>"}
@@ -9,7 +9,7 @@ RECV = {"ref": "&self", "mut": "&mut self", "own": "self", "rc": "self: std::rc:
 
 def arg(k, i):
     return {"u8": "%d" % i, "string": 'String::from("s%d")' % i, "ru8": "&%d" % i, "rru8": "&&%d" % i, "str": '"s%d"' % i, "mu8": "&mut v%d" % i,
-            "mvec": "&mut v%d" % i, "slice": "&[%d, %d]" % (i, i + 1), "vec": "vec![%d, %d]" % (i, i + 1), "gen": "%du16" % i,
+            "mvec": "&mut v%d" % i, "mlvec": "&mut v%d" % i, "slice": "&[%d, %d]" % (i, i + 1), "vec": "vec![%d, %d]" % (i, i + 1), "gen": "%du16" % i,
             "optstr": 'Some("k%d")' % i, "pair": "(%d, %d)" % (i, i + 1)}[k]
 
 
@@ -50,7 +50,9 @@ def render(cases):
         fwd = c["fwd"]
         params, recv, ret, asy, api = sh["params"], sh["recv"], sh["ret"], sh["async"], sh["api"]
         generic = "gen" in params
-        gdecl = "<T: Show + Send + 'static>" if generic else ""
+        gl = ["'a"] if "mlvec" in params else []
+        gt = ["T: Show + Send + 'static"] if generic else []
+        gdecl = ("<" + ", ".join(gl + gt) + ">") if (gl or gt) else ""
         plist = "".join(", a%d: %s" % (i + 1, PTY[k]) for i, k in enumerate(params))
         rty = RTY[ret]
         if asy == "asyncfn":
@@ -62,7 +64,7 @@ def render(cases):
         names = ", ".join("a%d" % (i + 1) for i in range(len(params)))
         shows = ", ".join("sh(&a%d)" % (i + 1) for i in range(len(params)))      # answer / real function: owns the arguments
         mshows = ", ".join("sh(a%d)" % (i + 1) for i in range(len(params)))      # matcher: bindings are references to them
-        writes = "".join(("*a%d += 100; " % (i + 1)) if k == "mu8" else ("a%d.push(%d); " % (i + 1, i + 101)) if k == "mvec" else "" for i, k in enumerate(params))
+        writes = "".join(("*a%d += 100; " % (i + 1)) if k == "mu8" else ("a%d.push(%d); " % (i + 1, i + 101)) if k in ("mvec", "mlvec") else "" for i, k in enumerate(params))
         retexpr = {"u32": "4242u32", "string": 'String::from("ret")', "opt": "Some(7u32)", "ref": None}[ret]
         if api == "hidden":
             L.append("#[unimock(unmock_with=[real_%d])]" % n)
@@ -84,8 +86,11 @@ def render(cases):
                 mt = "&|m| { m.func(|_, _| rec_m(vec![])); }"
             else:
                 mt = "matching!((%s) if rec_m(vec![%s]))" % (names, mshows)
-            uparam = "u" if ret == "ref" else "_u"
+            uparam = "u" if (ret == "ref" or recv == "own") else "_u"
             rexpr = "Unimock::make_ref(u, 77u32)" if ret == "ref" else retexpr
+            if recv == "own" and asy == "none":
+                # the receiver handed to the answer is the caller's own instance: an original accepts verify(), a clone does not
+                writes = writes + "u.verify(); "
             ans = "&|%s%s| { rec_a(vec![%s]); %s%s }" % (uparam, "".join(", a%d" % (i + 1) for i in range(len(params))), shows, writes, rexpr)
             build = "Unimock::new(%s.each_call(%s).answers(%s))" % (mf, mt, ans)
         cid = "f%d" % n
@@ -94,10 +99,10 @@ def render(cases):
         for i, k in enumerate(params):
             if k == "mu8":
                 L.append("    let mut v%d: u8 = %d;" % (i + 1, i + 1))
-            if k == "mvec":
+            if k in ("mvec", "mlvec"):
                 L.append("    let mut v%d: Vec<u8> = vec![%d];" % (i + 1, i + 1))
         args = ", ".join(arg(k, i + 1) for i, k in enumerate(params))
-        afters = "vec![%s]" % ", ".join("v%d.show()" % (i + 1) for i, k in enumerate(params) if k in ("mu8", "mvec"))
+        afters = "vec![%s]" % ", ".join("v%d.show()" % (i + 1) for i, k in enumerate(params) if k in ("mu8", "mvec", "mlvec"))
         mutu = "mut " if recv in ("mut", "pin") else ""
 
         def callexpr():
@@ -122,7 +127,7 @@ def render(cases):
             for i, k in enumerate(params):
                 if k == "mu8":
                     L.append("    let mut v%d: u8 = %d;" % (i + 1, i + 1))
-                if k == "mvec":
+                if k in ("mvec", "mlvec"):
                     L.append("    let mut v%d: Vec<u8> = vec![%d];" % (i + 1, i + 1))
             if consumed:
                 L.append("    let %su = %s.no_verify_in_drop();" % (mutu, build))
@@ -139,7 +144,7 @@ def render(cases):
         fns.append(cid)
         exp[cid] = {"shape": sh, "sig": sig, "matcher": [] if api == "hidden" else [fwd["matcher"]], "answer": [fwd["answer"]],
                     "ret": fwd["ret"], "after": [x for x in fwd["after"] if x != "-"],
-                    "initial": [initial_after(k, i + 1) for i, k in enumerate(params) if k in ("mu8", "mvec")], "async": asy != "none"}
+                    "initial": [initial_after(k, i + 1) for i, k in enumerate(params) if k in ("mu8", "mvec", "mlvec")], "async": asy != "none"}
     L.append("fn main() {")
     L.append("    std::panic::set_hook(Box::new(|_| {}));")
     for f in fns:
